@@ -48,12 +48,18 @@ const KINDS: [TargetKind; 3] = [TargetKind::Owned, TargetKind::SubView, TargetKi
 fn check_image(scene: &Scene, door: Door, kind: TargetKind, r: &mut Report) { check_image_ctx(scene, door, kind, 0, r) }
 /// painter: 0 = default context (depth test Less, no sort); 1 = BackToFront sort (the depth test has nothing to test on a
 /// colour-only target); 2 = BackToFront sort with the depth test disabled
-fn check_image_ctx(scene: &Scene, door: Door, kind: TargetKind, painter: u8, r: &mut Report) {
+/// (the argument also carries, in bits 2.., the initial depth-buffer content: 0 = distinct tiny positive values,
+/// 1 = distinct negative values, 2 = -0.0, 3 = f32::MIN, 4 = -infinity - every one of them farther than any fragment)
+fn check_image_ctx(scene: &Scene, door: Door, kind: TargetKind, mode: u8, r: &mut Report) {
     r.eval();
-    let case = || obj! {"kind" => "image", "scene" => scene_json(scene), "door" => format!("{door:?}"), "target" => format!("{kind:?}"), "painter" => painter as u64};
-    let tag = format!("{door:?}|{kind:?}|p{painter}|{}", short(scene));
+    let (painter, dinit) = (mode & 3, mode >> 2);
+    let dsent = |idx: usize| -> f32 { match dinit { 0 => depth_sentinel(idx), 1 => -1.0 - idx as f32 * 0.125, 2 => -0.0, 3 => f32::MIN, _ => f32::NEG_INFINITY } };
+    let n_px = (scene.bw * scene.bh) as usize;
+    let (prior_c, prior_d): (Vec<u32>, Vec<f32>) = ((0..n_px).map(color_sentinel).collect(), (0..n_px).map(dsent).collect());
+    let case = || obj! {"kind" => "image", "scene" => scene_json(scene), "door" => format!("{door:?}"), "target" => format!("{kind:?}"), "painter" => mode as u64};
+    let tag = format!("{door:?}|{kind:?}|p{painter}d{dinit}|{}", short(scene));
     let ctx = match painter { 0 => ctx_plain(), 1 => Context { depth_sort: Some(DepthSort::BackToFront), ..ctx_plain() }, _ => Context { depth_sort: Some(DepthSort::BackToFront), depth_test: None, ..ctx_plain() } };
-    let out = match render_scene(scene, None, door, kind, &ctx, Discard::Never, None) {
+    let out = match render_scene(scene, None, door, kind, &ctx, Discard::Never, if dinit == 0 { None } else { Some((&prior_c, &prior_d)) }) {
         Ok(o) => o,
         Err(p) => { r.violation(format!("render-panic|{tag}"), format!("rendering panicked: {p}"), case()); return; }
     };
@@ -66,8 +72,8 @@ fn check_image_ctx(scene: &Scene, door: Door, kind: TargetKind, painter: u8, r: 
         match orc.pixel(i, j) {
             Truth::Ambiguous(why) => { r.h(&format!("masked:{why}")); }
             Truth::Outside => {
-                if cw != color_sentinel(idx) || dw.map_or(false, |d| d.to_bits() != depth_sentinel(idx).to_bits()) {
-                    r.violation(format!("outside-written|{tag}"), format!("pixel ({i},{j}) lies unambiguously outside every visible part but holds colour {cw:#x} depth {dw:?} (sentinels {:#x}, {})", color_sentinel(idx), depth_sentinel(idx)), case());
+                if cw != color_sentinel(idx) || dw.map_or(false, |d| d.to_bits() != dsent(idx).to_bits()) {
+                    r.violation(format!("outside-written|{tag}"), format!("pixel ({i},{j}) lies unambiguously outside every visible part but holds colour {cw:#x} depth {dw:?} (sentinels {:#x}, {})", color_sentinel(idx), dsent(idx)), case());
                     return;
                 }
             }
@@ -155,6 +161,8 @@ fn run_image(cfg: &Cfg) -> ! {
         for (bw, bh, vp) in [(8u32, 8u32, (0u32, 0u32, 8u32, 8u32)), (8, 6, (1, 2, 7, 5))] {
             let scene = Scene { tris: idx.iter().map(|&k| pool[k].clone()).collect(), bw, bh, vp };
             check_image(&scene, DOORS[(i % 3) as usize], KINDS[(i / 3 % 2) as usize], r);
+            // other initial depth-buffer contents (negative, -0.0, most negative, -inf): one in five scenes
+            if i % 5 == 2 { let dm = 1 + (i / 5 % 4) as u8; check_image_ctx(&scene, DOORS[(i / 7 % 3) as usize], KINDS[(i / 3 % 2) as usize], dm << 2, r); r.h("initial-depth-variant"); }
         }
     }));
     // painter scenes: triangles with pairwise disjoint depth ranges of their visible parts, back-to-front sorted, on a
@@ -175,7 +183,7 @@ fn run_image(cfg: &Cfg) -> ! {
     rep.sample(0, || obj! {"scene" => "single triangle [[-1.5,1.2,0.4,2],[1.2,-0.35,2,-1],[-0.35,-1.5,-1.5,0.5]] attrs (0,1,0.25), buffer 8x6, viewport x1..7 y2..5, door Batch, target SubView"});
     rep.sample(1, || obj! {"multi" => "ordered triples from a 24-triangle pool of visible triangles with distinct outcode signatures"});
     rep.finish(cfg, "exploration",
-        "scenes = every ordered vertex triple of a clip-space lattice (x,y,z,w incl. negative w; triangles whose plane passes through the clip-space origin filtered and counted) x attribute permutation x viewport/buffer family x front door {render, Batch, Camera} x target {Framebuf<Buf2>, Framebuf<MutSlice2> over strided sub-views of larger buffers, colour-only}; plus every ordered pair and triple from a 24-triangle pool; plus 1 in 16 scenes re-rendered with all clip coordinates scaled by 2^-20 and 2^7 (same image); plus painter scenes (pairs/triples of the C06 pool with disjoint visible depth ranges, BackToFront sort, colour-only target or depth test off). Oracle: independent f64 per-pixel reference (projective barycentric solve, nearest by 1/w) with the statement's ambiguity mask (16 probes at 0.03 px, internal fan edges from the public clip API, 0.1% depth ties): inside => attribute within 0.5% and 1/w within 0.2%, outside => sentinel colour and depth intact. non-trivial = scene with >=1 judged inside pixel that is clipped or multi-triangle.",
+        "scenes = every ordered vertex triple of a clip-space lattice (x,y,z,w incl. negative w; triangles whose plane passes through the clip-space origin filtered and counted) x attribute permutation x viewport/buffer family x front door {render, Batch, Camera} x target {Framebuf<Buf2>, Framebuf<MutSlice2> over strided sub-views of larger buffers, colour-only}; plus every ordered pair and triple from a 24-triangle pool; plus 1 in 16 scenes re-rendered with all clip coordinates scaled by 2^-20 and 2^7 (same image); plus one multi-triangle scene in five with the depth buffer initialised to negative values, -0.0, f32::MIN or -infinity; plus painter scenes (pairs/triples of the C06 pool with disjoint visible depth ranges, BackToFront sort, colour-only target or depth test off). Oracle: independent f64 per-pixel reference (projective barycentric solve, nearest by 1/w) with the statement's ambiguity mask (16 probes at 0.03 px, internal fan edges from the public clip API, 0.1% depth ties): inside => attribute within 0.5% and 1/w within 0.2%, outside => sentinel colour and depth intact. non-trivial = scene with >=1 judged inside pixel that is clipped or multi-triangle.",
         &["attribute range is 1 (values 0, 0.25, 1)", "the fragment shader smuggles the attribute's bit pattern through the colour word", "initial depth = per-pixel distinct values < 3e-7"]);
 }
 
@@ -209,6 +217,8 @@ fn proj_matrix(p: u8) -> Mat4x4<RealToProj<View>> {
         1 => perspective(1.0, 1.0, 1.0..1000.0),
         2 => perspective(0.5, 1.4, 1.0..1000.0),
         3 => perspective(2.0, 0.75, 1.0..2.0),
+        // a scene measured in millimetres: near = 0.001, far/near = 1000
+        7 => perspective(1.0, 1.0, 0.001..1.0),
         4 => orthographic(pt3(-1.0, -1.0, -1.0), pt3(1.0, 1.0, 1.0)),
         5 => orthographic(pt3(-1000.0, -1.0, 0.5), pt3(1000.0, 3.0, 1000.0)),
         _ => orthographic(pt3(0.5, -3.0, 1.0), pt3(3.0, -0.5, 2.0)),
@@ -251,6 +261,37 @@ fn check_safety(t: &[[f32; 3]], sc: SafetyCfg, r: &mut Report) {
     if wrote { r.nontrivial(); r.h("drew"); } else { r.h("drew-nothing"); }
 }
 
+/// The camera door: Camera::new(dims).viewport(request) with requests that overhang the frame must clamp to the frame -
+/// no panic, nothing written outside frame ∩ request.
+fn check_safety_camera(t: &[[f32; 3]], dims: (u32, u32), req: (u32, u32, u32, u32), r: &mut Report) {
+    use re::render::{Camera, World};
+    use re::math::mat::RealToReal;
+    r.eval();
+    struct CamShader;
+    impl<'a> VertexShader<Vertex<Point3<World>, f32>, (&'a Mat4x4<RealToProj<World>>, ())> for CamShader {
+        type Output = Vertex<ClipVec, f32>;
+        fn shade_vertex(&self, v: Vertex<Point3<World>, f32>, (m, _): (&'a Mat4x4<RealToProj<World>>, ())) -> Self::Output { vertex(m.apply(&v.pos), v.attrib) }
+    }
+    impl FragmentShader<f32> for CamShader { fn shade_fragment(&self, _: Frag<f32>) -> Option<re::math::color::Color4> { Some(re::math::color::rgba(1, 2, 3, 4)) } }
+    let case = || obj! {"kind" => "safety-camera", "verts" => J::Arr(t.iter().flatten().map(|x| fbits(*x)).collect()), "dims" => vec![dims.0, dims.1], "req" => vec![req.0, req.1, req.2, req.3]};
+    let tag = format!("camera|{dims:?}|req{req:?}|{t:?}");
+    let verts: Vec<Vertex<Point3<World>, f32>> = t.iter().map(|p| vertex(pt3(p[0], p[1], p[2]), 0.5)).collect();
+    let cam = match caught(|| Camera::new(dims).mode(Mat4x4::<RealToReal<3, World, View>>::identity()).viewport((req.0..req.2, req.1..req.3)).perspective(1.0, 1.0..1000.0)) { Ok(c) => c, Err(p) => { r.violation(format!("render-panic|camera-setup|{tag}"), format!("Camera::viewport({req:?}) on a {dims:?} frame panicked: {p}"), case()); return; } };
+    let mut fb = Framebuf { color_buf: Buf2::<u32>::new_from(dims, (0..).map(|i| 0x7E57_0000 | i)), depth_buf: Buf2::<f32>::new_from(dims, (0..).map(|i| 1e-9 * (1 + i) as f32)) };
+    let to_world: Mat4x4<RealToReal<3, World, World>> = Mat4x4::identity();
+    if let Err(p) = caught(|| cam.render([Tri([0, 1, 2])], &verts, &to_world, &CamShader, (), &mut fb, &Context { face_cull: None, ..Context::default() })) { r.violation(format!("render-panic|camera|{tag}"), format!("Camera::render with an overhanging viewport request panicked: {p}"), case()); return; }
+    let mut wrote = false;
+    for y in 0..dims.1 { for x in 0..dims.0 {
+        let i = y * dims.0 + x;
+        let sent = fb.color_buf[[x, y]] == (0x7E57_0000 | i) && fb.depth_buf[[x, y]].to_bits() == (1e-9 * (1 + i) as f32).to_bits();
+        if !sent { wrote = true; }
+        let inside = x >= req.0 && x < req.2 && y >= req.1 && y < req.3;
+        if !inside && !sent { r.violation(format!("outside-viewport-written|{tag}"), format!("pixel ({x},{y}) lies outside the requested viewport but was modified"), case()); return; }
+        if fb.depth_buf[[x, y]].is_nan() { r.violation(format!("nan-depth|{tag}"), format!("NaN depth at ({x},{y})"), case()); return; }
+    }}
+    if wrote { r.nontrivial(); r.h("camera-drew"); }
+}
+
 fn safety_lattice(quick: bool, far: f32) -> Vec<[f32; 3]> {
     let e = 1.0 + 1.0 / 1048576.0;
     let (xy, z): (Vec<f32>, Vec<f32>) = if quick {
@@ -285,6 +326,34 @@ fn run_safety(cfg: &Cfg) -> ! {
             let sc = SafetyCfg { proj: pi, bw, bh, vp, flags: flagsets[(i / 7 % 4) as usize], sub: i % 3 == 0 };
             check_safety(&t, sc, r);
             if i % 5 == 0 { let (bw, bh, vp) = cfgs[((i / 5) % nc) as usize]; check_safety(&t, SafetyCfg { proj: pi, bw, bh, vp, flags: 9, sub: true }, r); }
+        }));
+    }
+    // the camera door with viewport requests that overhang the frame
+    {
+        let pts = safety_lattice(true, 1000.0);
+        let n = pts.len() as u64;
+        let reqs = [((7u32, 5u32), (0u32, 0u32, 100u32, 100u32)), ((7, 5), (3, 0, 40, 5)), ((7, 5), (2, 1, 9, 3)), ((5, 7), (0, 3, 4, 30)), ((16, 9), (0, 0, 16, 16)), ((9, 16), (0, 0, 16, 16))];
+        rep.merge(par_range(cfg, n * n * n / if quick { 7 } else { 1 }, |j, r| {
+            let i = if quick { j * 7 + j % 7 } else { j };
+            let t = [pts[(i % n) as usize], pts[(i / n % n) as usize], pts[((i / n / n) % n) as usize]];
+            let (dims, req) = reqs[(i % 6) as usize];
+            check_safety_camera(&t, dims, req, r);
+        }));
+    }
+    // a millimetre-scale scene (near 0.001) on wide and tall targets: vertices a few 1e-7 outside the side planes in
+    // absolute clip coordinates are most of a pixel outside at this scale and width
+    {
+        let mut pts: Vec<[f32; 3]> = vec![];
+        for z in [0.0015f32, 0.004, 0.1] { for x in [0.0f32, 0.5, -0.5, 1.0006, -1.0006, 1.0003] { for y in [0.0f32, 0.4, -1.0006, 1.0003] { pts.push([x * z, y * z, z]); } } }
+        let n = pts.len() as u64;
+        let wide = [(2056u32, 3u32, (0u32, 0u32, 2048u32, 3u32)), (2056, 3, (8, 0, 2056, 3)), (3, 2056, (0, 0, 3, 2048)), (3, 2056, (0, 8, 3, 2056)), (2048, 2, (0, 0, 2048, 2))];
+        rep.set("millimetre_scene_points", n);
+        rep.merge(par_range(cfg, n * n * n / if quick { 5 } else { 1 }, |j, r| {
+            let i = if quick { j * 5 + j % 5 } else { j };
+            let t = [pts[(i % n) as usize], pts[(i / n % n) as usize], pts[((i / n / n) % n) as usize]];
+            let (bw, bh, vp) = wide[(i % 5) as usize];
+            check_safety(&t, SafetyCfg { proj: 7, bw, bh, vp, flags: [13u32, 0, 9][(i / 5 % 3) as usize], sub: i % 2 == 0 }, r);
+            r.h("millimetre-scene");
         }));
     }
     // full 144 flag combinations x 256-scene core set (soups of 1-3 triangles incl. coincident and degenerate ones)
@@ -325,7 +394,7 @@ fn run_safety(cfg: &Cfg) -> ! {
     }));
     rep.sample(0, || obj! {"view_space_triangle" => vec![vec![-1000.0f32, 3.0, 1.0], vec![0.0, 0.0, 0.0], vec![3.0, -1.0, 1000.0]], "projection" => "perspective(1,1,1..1000)", "buffer" => "7x5 sub-view, viewport (2,1)..(5,4)", "flags" => "cull Back, test Less"});
     rep.finish(cfg, "exploration",
-        "view-space triangle soups: every ordered vertex triple (repeats included: degenerate and zero-area triangles) over an adversarial lattice in units of near (0, +-0.5, +-1, +-3, +-1000; z behind the eye, 0, on near, near(1+2^-20), far/2, far, far(1+2^-20), 1000) through the library's own perspective (far/near 2 and 1000, focal 0.5/1/2) and orthographic matrices and viewport(), into buffers 1x1..16x16 with full, 1x1, interior and edge-touching viewports, owned and strided sub-view targets, with 4 Context flag sets by rotation; plus all 144 flag combinations x 256 soups of 1-3 (coincident / degenerate) triangles x 3 projections, sub-pixel triangles of size 2^-4..2^-17 at every lattice point, and tessellated walls of 8/30/72 triangles at tilts 0..1 (many nearly equal depth keys) under 36 cull/sort/test combinations. Oracle: no panic, every cell outside the viewport (incl. the enclosing parent buffers) keeps its sentinel, no NaN in the depth buffer. non-trivial = the scene wrote at least one cell.",
+        "view-space triangle soups: every ordered vertex triple (repeats included: degenerate and zero-area triangles) over an adversarial lattice in units of near (0, +-0.5, +-1, +-3, +-1000; z behind the eye, 0, on near, near(1+2^-20), far/2, far, far(1+2^-20), 1000) through the library's own perspective (far/near 2 and 1000; also a millimetre-scale scene with near 0.001 on 2048-pixel wide/tall targets; also through Camera::render with viewport requests that overhang the frame; focal 0.5/1/2) and orthographic matrices and viewport(), into buffers 1x1..16x16 with full, 1x1, interior and edge-touching viewports, owned and strided sub-view targets, with 4 Context flag sets by rotation; plus all 144 flag combinations x 256 soups of 1-3 (coincident / degenerate) triangles x 3 projections, sub-pixel triangles of size 2^-4..2^-17 at every lattice point, and tessellated walls of 8/30/72 triangles at tilts 0..1 (many nearly equal depth keys) under 36 cull/sort/test combinations. Oracle: no panic, every cell outside the viewport (incl. the enclosing parent buffers) keeps its sentinel, no NaN in the depth buffer. non-trivial = the scene wrote at least one cell.",
         &["|coordinate| <= 1000 x near, far/near <= 1000", "clip-space origin unreachable through these matrices (see DESIGN C02)"]);
 }
 
@@ -459,6 +528,10 @@ fn order_pool() -> Vec<STri> {
         mk([[1.8, 0.5], [0.5, 1.8], [2.0, 2.0]], [1.5; 3], 0.95),
         // a ground triangle reaching behind the viewer (two vertices at w = -5): its visible part starts at w = 1.05
         STri { v: [[-3.0, -1.05, e22 * -5.0 + e23, -5.0], [3.0, -1.05, e22 * -5.0 + e23, -5.0], [0.0, -1.05, e22 * 3.0 + e23, 3.0]], a: [0.05, 0.06, 0.07] },
+        // two layers with exactly the same constant colour (attribute 0 everywhere), in front of and behind #1/#2:
+        // a write that is skipped because "the colour is already there" must still update depth
+        STri { a: [0.0; 3], ..mk(f0, [1.5; 3], 0.0) },
+        STri { a: [0.0; 3], ..mk([[-0.8, -0.9], [0.9, -0.6], [-0.2, 0.9]], [3.5; 3], 0.0) },
     ]
 }
 
@@ -479,7 +552,7 @@ fn run_order(cfg: &Cfg) -> ! {
     });
     rep.set("scenes", ns);
     rep.finish(cfg, "model_checking",
-        "explicit-state search per scene of n<=4 (thorough <=6) triangles on an 8x8 Framebuf: state = (set of submitted triangles, colour buffer, depth buffer); transition = one real render() call with ANY non-empty ordered subset of the not yet submitted triangles x depth_sort in {None, FrontToBack, BackToFront}; states deduplicated on the full tuple; invariant in every state: each pixel holds colour and depth of the nearest (largest 1/w) submitted triangle covering it, where coverage and depth per triangle come from solo renders (differential oracle) and pixels with exactly equal depths are exempt; plus: depth test off + BackToFront == depth-buffered image for scenes with disjoint depth ranges; scenes of <= 3 triangles are explored a second time with a checkerboard-discarding fragment shader. Scenes: all 2-, 3- and 4-subsets (thorough: also all 5-subsets and two 6-subsets) of a 19-triangle pool with overlapping, interpenetrating, partially clipped, culled-away, clipped-away (past a frustum corner), behind-the-viewer, coincident-footprint and two-ulp-apart members; depth ranges for the painter clause are those of the exact visible parts.",
+        "explicit-state search per scene of n<=4 (thorough <=6) triangles on an 8x8 Framebuf: state = (set of submitted triangles, colour buffer, depth buffer); transition = one real render() call with ANY non-empty ordered subset of the not yet submitted triangles x depth_sort in {None, FrontToBack, BackToFront}; states deduplicated on the full tuple; invariant in every state: each pixel holds colour and depth of the nearest (largest 1/w) submitted triangle covering it, where coverage and depth per triangle come from solo renders (differential oracle) and pixels with exactly equal depths are exempt; plus: depth test off + BackToFront == depth-buffered image for scenes with disjoint depth ranges; scenes of <= 3 triangles are explored a second time with a checkerboard-discarding fragment shader. Scenes: all 2-, 3- and 4-subsets (thorough: also all 5-subsets and two 6-subsets) of a 21-triangle pool with overlapping, identically coloured, interpenetrating, partially clipped, culled-away, clipped-away (past a frustum corner), behind-the-viewer, coincident-footprint and two-ulp-apart members; depth ranges for the painter clause are those of the exact visible parts.",
         &["per-triangle coverage/depth taken from solo renders (validated separately by C01/C04/C05)", "depth test Less, depth writes on"]);
 }
 
@@ -560,6 +633,36 @@ fn check_config(scene: &Scene, flags: u32, discard: Discard, kind: TargetKind, r
     if st.frags.o < changed { bad.push(format!("frags.o={} < {} pixels whose colour changed", st.frags.o, changed)); }
     if !bad.is_empty() { r.violation(format!("stats|{}|{tag}", bad[0].split('=').next().unwrap_or("")), format!("statistics after one call do not match what happened: {}", bad.join("; ")), case()); return; }
     r.nontrivial();
+}
+
+/// Culling of triangles far smaller than a pixel that still contain a pixel centre (by more than 0.002 px): whether a
+/// fragment appears is C04's business (it must, the centre is inside), so exactly one vertex order may draw it.
+fn check_cull_small(cx: u32, cy: u32, size: f32, shape: usize, kind: TargetKind, r: &mut Report) {
+    r.eval();
+    let (bw, bh, vp) = (8u32, 8u32, (0u32, 0u32, 8u32, 8u32));
+    let c = (cx as f32 + 0.5, cy as f32 + 0.5);
+    let offs: [[f32; 2]; 3] = [[[-1.0, -0.7], [1.0, -0.6], [0.0, 1.0]], [[-1.0, 0.9], [0.1, -1.0], [0.9, 0.8]], [[-3.0, -0.5], [3.0, -0.4], [0.2, 0.6]]][shape];
+    let w = [1.0f32, 2.0, 0.5][shape];
+    let t = STri { v: std::array::from_fn(|k| { let (px, py) = (c.0 + size * offs[k][0], c.1 + size * offs[k][1]); [(px / 4.0 - 1.0) * w, (py / 4.0 - 1.0) * w, 0.1 * w, w] }), a: PERMS[shape] };
+    let s: Vec<[f64; 2]> = (0..3).map(|k| [(c.0 + size * offs[k][0]) as f64, (c.1 + size * offs[k][1]) as f64]).collect();
+    let area2 = (s[1][0] - s[0][0]) * (s[2][1] - s[0][1]) - (s[1][1] - s[0][1]) * (s[2][0] - s[0][0]);
+    // margin of the pixel centre to the three edges
+    let p = [c.0 as f64, c.1 as f64];
+    let margin = (0..3).map(|k| { let (a, b) = (s[k], s[(k + 1) % 3]); let l = ((b[0] - a[0]).powi(2) + (b[1] - a[1]).powi(2)).sqrt(); ((b[0] - a[0]) * (p[1] - a[1]) - (b[1] - a[1]) * (p[0] - a[0])) / l * area2.signum() }).fold(f64::MAX, f64::min);
+    if margin < 0.002 { r.h("cull-small:centre-too-close-to-an-edge"); return; }
+    let rev = STri { v: [t.v[0], t.v[2], t.v[1]], a: [t.a[0], t.a[2], t.a[1]] };
+    let draw = |tri: &STri, cull: Option<FaceCull>| render_scene(&Scene { tris: vec![tri.clone()], bw, bh, vp }, None, Door::Render, kind, &Context { face_cull: cull, ..Context::default() }, Discard::Never, None).map(|o| o.stats.frags.i);
+    let case = || obj! {"kind" => "cull-small", "cx" => cx as u64, "cy" => cy as u64, "size" => fbits(size), "shape" => shape as u64, "target" => format!("{kind:?}")};
+    let tag = format!("{kind:?}|centre({cx},{cy})|size={size}|shape{shape}");
+    let (Ok(fa), Ok(fb)) = (draw(&t, None), draw(&rev, None)) else { r.violation(format!("render-panic|{tag}"), "render panicked".into(), case()); return; };
+    if fa == 0 || fb == 0 { r.violation(format!("cull-off-one-order-missing|small|{tag}"), format!("culling off: the two vertex orders of a {size} px triangle around a pixel centre (margin {margin:.4} px) produced {fa} and {fb} fragments"), case()); return; }
+    for (mode, name) in [(FaceCull::Back, "Back"), (FaceCull::Front, "Front")] {
+        let (Ok(fa), Ok(fb)) = (draw(&t, Some(mode)), draw(&rev, Some(mode))) else { return; };
+        let a_drawn_expected = match mode { FaceCull::Back => !(area2 > 0.0), FaceCull::Front => area2 > 0.0 };
+        if (fa > 0) == (fb > 0) { r.violation(format!("cull-not-exactly-one|{name}|small|{tag}"), format!("face_cull = {name}: the two vertex orders of a {size} px triangle (doubled area {area2:.3e} px^2) produced {fa} and {fb} fragments (exactly one must be drawn)"), case()); return; }
+        if (fa > 0) != a_drawn_expected { r.violation(format!("cull-wrong-side|{name}|small|{tag}"), format!("face_cull = {name}: wrong vertex order drawn for a {size} px triangle"), case()); return; }
+    }
+    r.nontrivial(); r.h("cull-small:judged");
 }
 
 fn check_cull(t: &STri, bw: u32, bh: u32, vp: (u32, u32, u32, u32), kind: TargetKind, r: &mut Report) {
@@ -717,6 +820,8 @@ fn run_config(cfg: &Cfg) -> ! {
         check_cull(t, v.0, v.1, v.2, [TargetKind::Owned, TargetKind::ColorOnly][k as usize], r);
     }));
     rep.merge(par_range(cfg, 9 * 6, |i, r| check_solid_culling((i % 9) as usize, (i / 9) as usize, r)));
+    // triangles of 1/2 .. 1/512 px around every pixel centre of the 8x8 frame x 3 shapes x 2 targets
+    rep.merge(par_range(cfg, 64 * 9 * 3 * 2, |i, r| check_cull_small((i % 8) as u32, (i / 8 % 8) as u32, [0.5f32, 0.25, 0.125, 0.0625, 0.03125, 0.015625, 0.0078125, 0.00390625, 0.001953125][(i / 64 % 9) as usize], (i / 576 % 3) as usize, [TargetKind::Owned, TargetKind::ColorOnly][(i / 1728) as usize], r)));
     // statistics accumulate over calls, including calls in which nothing survives
     for (si, sc) in scenes.iter().enumerate().take(if quick { 60 } else { scenes.len() }) {
         if sc.vp.0 > sc.vp.2 { continue; }
@@ -724,7 +829,7 @@ fn run_config(cfg: &Cfg) -> ! {
     }
     rep.sample(0, || obj! {"scene" => "2 overlapping triangles, 8x6 buffer viewport (1,2)..(7,5)", "flags" => "cull Front, sort BackToFront, test Greater, color_write off, depth_write on", "discard" => "Parity", "target" => "ColorOnly"});
     rep.finish(cfg, "exploration",
-        "scenes (1-3 pool triangles in both vertex orders, lattice triangles, the empty list) x all 144 Context combinations (face_cull x depth_sort x depth_test x color_write x depth_write) x fragment shader {never, always, checkerboard discard} x target {Framebuf, colour-only}: write masks leave their buffer untouched, colour writes do not influence depth, disabled test => every generated fragment is shaded and depth is written wherever colour is, discarding shader writes nothing, and Stats (calls, prims, verts, frags in/out) equal independent counts (submitted sizes, harness-side clip class and on-screen winding, shader invocation counters of twin runs, changed-pixel counts), accumulate over calls incl. calls where nothing survives and the Batch door; culling: every unclipped and every clipped triangle (incl. vertices behind the viewer; winding = signed area of the exact visible part) with at least one unambiguous interior pixel, in both vertex orders x 3 modes x 6 viewports incl. axis-mirrored ones x 2 targets: exactly one order drawn, chosen by the harness's own on-screen signed area, both drawn and equal away from edge pixels when off; convention-free cross-check: nine closed convex solids from geom::solids x six view directions through Camera::render look the same with Back culling as without (up to silhouette depth ties) and different with Front culling. non-trivial = configuration fully judged.",
+        "scenes (1-3 pool triangles in both vertex orders, lattice triangles, the empty list) x all 144 Context combinations (face_cull x depth_sort x depth_test x color_write x depth_write) x fragment shader {never, always, checkerboard discard} x target {Framebuf, colour-only}: write masks leave their buffer untouched, colour writes do not influence depth, disabled test => every generated fragment is shaded and depth is written wherever colour is, discarding shader writes nothing, and Stats (calls, prims, verts, frags in/out) equal independent counts (submitted sizes, harness-side clip class and on-screen winding, shader invocation counters of twin runs, changed-pixel counts), accumulate over calls incl. calls where nothing survives and the Batch door; culling: every unclipped and every clipped triangle (incl. vertices behind the viewer; winding = signed area of the exact visible part) with at least one unambiguous interior pixel, in both vertex orders x 3 modes x 6 viewports incl. axis-mirrored ones x 2 targets, plus triangles of 1/2..1/512 px around every pixel centre (judged when the centre is > 0.002 px inside): exactly one order drawn, chosen by the harness's own on-screen signed area, both drawn and equal away from edge pixels when off; convention-free cross-check: nine closed convex solids from geom::solids x six view directions through Camera::render look the same with Back culling as without (up to silhouette depth ties) and different with Front culling. non-trivial = configuration fully judged.",
         &["Back-face convention: positive on-screen signed area (x1-x0)(y2-y0)-(y1-y0)(x2-x0) is a back face, as implied by the solids' outward normals (C15)", "prims.o is judged only for scenes without clipped triangles", "on-screen winding of a clipped triangle = signed area of its exact visible part (vertex enumeration, not the library's clipper)"]);
 }
 
@@ -744,11 +849,19 @@ fn main() {
                     let vp: Vec<u32> = c.get("vp").unwrap().as_arr().unwrap().iter().map(|x| x.as_u64().unwrap() as u32).collect();
                     check_safety(&t, SafetyCfg { proj: g("proj") as u8, bw: g("bw"), bh: g("bh"), vp: (vp[0], vp[1], vp[2], vp[3]), flags: g("flags"), sub: c.get("sub") == Some(&J::Bool(true)) }, r)
                 }
+                "safety-camera" => {
+                    let f: Vec<f32> = c.get("verts").unwrap().as_arr().unwrap().iter().map(|x| parse_fbits(x).unwrap()).collect();
+                    let t: Vec<[f32; 3]> = f.chunks(3).map(|c| [c[0], c[1], c[2]]).collect();
+                    let u = |k: &str| -> Vec<u32> { c.get(k).unwrap().as_arr().unwrap().iter().map(|x| x.as_u64().unwrap() as u32).collect() };
+                    let (d, q) = (u("dims"), u("req"));
+                    check_safety_camera(&t, (d[0], d[1]), (q[0], q[1], q[2], q[3]), r)
+                }
                 "order" | "painter" => explore_order(&scene_from(c.get("scene").unwrap()), r, 0, if c.get("discard").and_then(|j| j.as_str()) == Some("Parity") { Discard::Parity } else { Discard::Never }),
                 "config" => check_config(&scene_from(c.get("scene").unwrap()), c.get("flags").unwrap().as_u64().unwrap() as u32, match c.get("discard").and_then(|j| j.as_str()).unwrap_or("") { "Always" => Discard::Always, "Parity" => Discard::Parity, _ => Discard::Never }, kind(c), r),
                 "accum" => { let pool = order_pool(); check_accumulation(&scene_from(c.get("scene").unwrap()), 0, &pool[10], r) }
                 "solid" => check_solid_culling(c.get("solid").unwrap().as_u64().unwrap() as usize, c.get("view").unwrap().as_u64().unwrap() as usize, r),
                 "cull" => { let s = scene_from(c.get("scene").unwrap()); check_cull(&s.tris[0], s.bw, s.bh, s.vp, kind(c), r) }
+                "cull-small" => check_cull_small(c.get("cx").unwrap().as_u64().unwrap() as u32, c.get("cy").unwrap().as_u64().unwrap() as u32, parse_fbits(c.get("size").unwrap()).unwrap(), c.get("shape").unwrap().as_u64().unwrap() as usize, kind(c), r),
                 k => machinery_error(&format!("replay kind {k} unsupported")),
             }
         });
